@@ -412,3 +412,36 @@ total!(k02_total_unary, 6, 0b001, 3); // injl injr take drop
 total!(k02_total_disconnect1, 6, 0b01011, 5);
 total!(k02_total_binary, 10, 0b000, 3); // comp case pair disconnect
 total!(k02_total_word, 6, 0b10, 2); // word: natural <= 32, then the (modelled) word body
+
+/// Word nodes whose length field is a 6-bit natural (32..=63): `10` + natural
+/// `1110 0 01 xxxxx`. Only 32 is a legal word length; everything above must be
+/// rejected before the word body is read.
+#[kani::proof]
+#[kani::unwind(5)]
+#[kani::stub(std::sync::Arc::drop_slow, crate::hcons::stub_arc_drop_slow)]
+#[kani::stub(simplicity::types::precomputed::nth_power_of_2, crate::vals::stub_nth_power_of_2)]
+#[kani::stub(simplicity::Tmr::sum, crate::hcons::stub_tmr_sum)]
+#[kani::stub(simplicity::Tmr::product, crate::hcons::stub_tmr_product)]
+#[kani::stub(simplicity::Word::from_bits, model_word_from_bits)]
+fn k02_total_word_len6() {
+    let mut data: [u8; 3] = kani::any();
+    // 10 1110 0 0 | 1 xxxxx ..
+    data[0] = 0b1011_1000;
+    data[1] = 0b1000_0000 | (data[1] & 0x7f);
+    let index: usize = kani::any();
+    let mut it = BitIter::from(&data[..]);
+    let r = decode_node::<_, TinyJet>(&mut it, index);
+    let n = 32 + ((data[1] >> 2) & 0x1f) as usize;
+    match r {
+        Ok(DecodedNode::Word(w)) => {
+            assert!(n == 32, "a word length above 32 was accepted");
+            std::mem::forget(w);
+        }
+        Ok(_) => panic!("word code decoded to another node kind"),
+        Err(e) => {
+            kani::cover!(n == 33, "length 33 rejected");
+            std::mem::forget(e);
+        }
+    }
+    kani::cover!(n == 32, "length 32");
+}
